@@ -201,6 +201,14 @@ EnterOp(S, v, nx) ==
               ELSE IF S.bs[t].stall < 1 THEN Rej(S)
               ELSE IF ~Installed(S, s, p) THEN Err(S)
               ELSE IF S.st[s].pl[p].kind # r.kind THEN Err(S)
+              \* first come, first served also through the base: a vehicle waiting in the station's queue does not take
+              \* one of its plugs past vehicles that queued earlier (same rule as EnterChargingStation)
+              ELSE IF FixFifo /\ r.act = "ChargeQueueing" /\ r.tgt = s /\ r.plug = p
+                      /\ \E w \in DOMAIN S.veh \ {v} :
+                            /\ S.veh[w].act = "ChargeQueueing" /\ S.veh[w].tgt = s /\ S.veh[w].plug = p
+                            /\ \/ S.veh[w].enq < r.enq
+                               \/ (S.veh[w].enq = r.enq /\ w \in DOMAIN S.ord /\ v \in DOMAIN S.ord /\ S.ord[w] < S.ord[v])
+                   THEN Rej(S)
               ELSE IF S.st[s].pl[p].av = 0 THEN Rej(S)
               ELSE Ok(SetAct([S EXCEPT !.bs[t].stall = @ - 1, !.st[s].pl[p].av = @ - 1], v, nx))
     [] OTHER -> Err(S)     \* pooling activities: every way in is rejected in the current tree
